@@ -565,6 +565,7 @@ func C02(c *core.Ctx) {
 	for _, n := range []string{"CreatePDR", "UpdatePDR", "RemovePDR", "CreateFAR", "UpdateFAR", "RemoveFAR"} {
 		addressing(c, "R5", n)
 	}
+	handedOn(c, "R5", []string{"PDR", "FAR"})
 	c.Floor("R2", c.Counts["R2"], 40, "PDR/FAR attribute rows compared")
 	// R6: the apply-action bits written are those of the IE: the decoder the FAR builders call (shared with C19 R3)
 	if m := c.P.Method(pkgReport, "ApplyAction", "Unmarshal"); m != nil {
@@ -615,6 +616,7 @@ func C03(c *core.Ctx) {
 	for _, n := range []string{"CreateQER", "UpdateQER", "RemoveQER", "CreateURR", "UpdateURR", "RemoveURR", "CreateBAR", "UpdateBAR", "RemoveBAR"} {
 		addressing(c, "R5", n)
 	}
+	handedOn(c, "R5", []string{"QER", "URR", "BAR"})
 	c.Floor("R2", c.Counts["R2"], 50, "QER/URR/BAR attribute rows compared")
 	if m := c.P.Method(pkgReport, "ReportingTrigger", "Unmarshal"); m != nil {
 		renameRule(c, "R3", "R6", func() {
@@ -732,4 +734,84 @@ func reachesBlock2(from, to *ssa.BasicBlock) bool {
 		stack = append(stack, b.Succs...)
 	}
 	return false
+}
+
+// handedOn: the session layer hands every Create/Update IE on to the driver, unchanged and under the
+// session's own SEID: in Sess.<Verb><Kind> every path from entry to a return passes through the
+// Driver.<Verb><Kind> call, except through the failure edge of a parse of the IE itself or (Update)
+// the 'rule id not in this session' edge.
+func handedOn(c *core.Ctx, rule string, kinds []string) {
+	n := 0
+	for _, kind := range kinds {
+		for _, verb := range []string{"Create", "Update"} {
+			name := verb + kind
+			fn := fnOf(c, rule, pkgPfcp, "Sess", name)
+			if fn == nil {
+				continue
+			}
+			recv, req := core.Recv(fn), core.Param(fn, 0)
+			var drv ssa.CallInstruction
+			core.Instrs(fn, func(in ssa.Instruction) {
+				if ci, ok := in.(ssa.CallInstruction); ok && ci.Common().IsInvoke() && ci.Common().Method.Name() == name {
+					drv = ci
+				}
+			})
+			if drv == nil {
+				c.Check(rule, "handed-on:"+name, fn.Pos(), false, "Sess."+name+" does not call Driver."+name)
+				continue
+			}
+			n++
+			args := drv.Common().Args
+			c.Check(rule, "handed-on-args:"+name, drv.Pos(), len(args) == 2 && core.IsPath(args[0], recv, "LocalID") && args[1] == ssa.Value(req),
+				"Driver."+name+" receives the session's own SEID and the IE as it arrived")
+			// excusing facts
+			var parseErrs, missOK []ssa.Value
+			core.Instrs(fn, func(in ssa.Instruction) {
+				switch x := in.(type) {
+				case *ssa.Call:
+					if x == drv.(ssa.Instruction) || x.Call.IsInvoke() {
+						return
+					}
+					if r := core.CallRecv(x); r != ssa.Value(req) {
+						return
+					}
+					for _, u := range *x.Referrers() {
+						if ex, ok := u.(*ssa.Extract); ok && types.Identical(ex.Type(), types.Universe.Lookup("error").Type()) {
+							parseErrs = append(parseErrs, ex)
+						}
+					}
+				case *ssa.Lookup:
+					if verb == "Update" && x.CommaOk && core.IsPath(x.X, recv, kind+"IDs") {
+						for _, u := range *x.Referrers() {
+							if ex, ok := u.(*ssa.Extract); ok && ex.Index == 1 {
+								missOK = append(missOK, ex)
+							}
+						}
+					}
+				}
+			})
+			r := returnAvoiding(fn.Blocks[0], func(b *ssa.BasicBlock) bool {
+				if blockHas(b, drv.(ssa.Instruction)) {
+					return true
+				}
+				for _, e := range parseErrs {
+					if core.NilKnownAt(b, e, false) {
+						return true
+					}
+				}
+				for _, o := range missOK {
+					if core.KnownAt(b, o, false) {
+						return true
+					}
+				}
+				return false
+			})
+			pos := drv.Pos()
+			if r != nil {
+				pos = r.Pos()
+			}
+			c.Check(rule, "handed-on:"+name, pos, r == nil, "every well-formed "+verb+" "+kind+" IE reaches Driver."+name+": the only exits before the call are a parse failure of the IE"+map[bool]string{true: " and 'rule id not in this session'", false: ""}[verb == "Update"])
+		}
+	}
+	c.Floor(rule, n, 2*len(kinds), "Sess Create/Update methods with a driver call")
 }
